@@ -170,7 +170,7 @@ def run_unit(task):
             continue
         seen.add(key)
         n = per_clause.get(v.clause, 0)
-        if n >= caps.get("replays", 40):
+        if n >= caps.get("replays", 40) or sum(per_clause.values()) >= caps.get("replays_total", 120):
             continue
         per_clause[v.clause] = n + 1
         rec = {"harness": hname, "params": params, "clause": v.clause, "model": v.model}
